@@ -38,7 +38,7 @@ def e2e_stream(tier, seed):
     pool = [G.gen_decl(rng, "valid") for _ in range(12 * n)]
     pool = [l for l in pool if len(l) < 900]
     pm = C.lean_driver(["E " + l for l in pool])
-    feats = [emission_features(m) for m in pm]
+    feats = [emission_features(m) | decl_features(l) for l, m in zip(pool, pm)]
     counts = collections.Counter(f for fs in feats for f in fs)
     taken = set()
     quota = max(2, (n - len(lines)) // max(1, len(counts)))
@@ -58,11 +58,37 @@ def e2e_stream(tier, seed):
     ok = [(i, l) for i, (l, m) in enumerate(zip(lines, model)) if m.startswith("OK")]
     E = X.E2E("s%d" % seed, repo_dir, tools)
     res = dict(E=E, lines=lines, model=model, ok=ok,
-               features=dict(collections.Counter(f for i, l in ok for f in emission_features(model[i]))))
+               features=dict(collections.Counter(f for i, l in ok for f in (emission_features(model[i]) | decl_features(l)))))
     res["gen"] = E.generate(ok, rng=G.SplitMix64(seed + 99), perfile=20, per_invocation=4)
     res["extract"] = E.extract()
     _cache[key] = res
     return res
+
+def decl_features(line):
+    """declaration-level features: the minimal cases on which one lost flag flips the signature or the result"""
+    ret, provs = G.parse_decl(line)
+    sup = PC.suppliers(ret, provs)
+    need, args = PC.needed(ret, provs, sup)
+    np = [provs[k[1]] for k in need if k[0] == 'P']
+    fs = set()
+    asy = [p for p in np if p['a']]
+    fal = [p for p in np if p['e']]
+    bound = lambda p: any(len(g) > 1 for g in p['groups'])
+    if len(asy) == 1:
+        fs.add("single-needed-async" + ("-is-bound" if bound(asy[0]) else ""))
+    if asy and all(bound(p) for p in asy):
+        fs.add("all-needed-async-are-bound")
+    if len(fal) == 1:
+        fs.add("single-needed-fallible" + ("-is-bound" if bound(fal[0]) else ""))
+    if any(p['a'] for i, p in enumerate(provs) if p['kind'] == 0 and ('P', i) not in need) and not asy:
+        fs.add("only-unneeded-providers-are-async")
+    if any(p['e'] for i, p in enumerate(provs) if p['kind'] == 0 and ('P', i) not in need) and not fal:
+        fs.add("only-unneeded-providers-are-fallible")
+    if 0 in args and not asy:
+        fs.add("ctx-parameter-without-async")
+    if len(set(args)) >= 4:
+        fs.add("parameters>=4")
+    return fs
 
 def emission_features(m):
     """structural features of a model emission line, used to steer the selection of end-to-end cases"""
